@@ -50,12 +50,37 @@ def arm_actions(fx, body, out_lids, chr_lids, esc_lid, args_lid):
 
 
 def _find_scanner(fx, hb, depth=2):
-    """(body, for-loop node) of the loop over `<format>.chars()` in eval_print or a local function it calls"""
+    """the loop over the format's characters in eval_print or a local function it calls:
+    {'fn': body, 'loop': node, 'pat': element pattern, 'body': loop body, 'iter_lid': local holding the iterator (only for
+    `while let Some(c) = it.next()`, whose body may take the following character itself)}"""
+    chars_locals = set()
+    for n, ps in walk_body(hb):
+        if n.get("k") == "Block":
+            for st in n["block"]["stmts"]:
+                if st["k"] == "Let" and st["pat"].get("k") == "Binding" and "init" in st:
+                    i = peel(st["init"])
+                    if i.get("k") == "MethodCall" and i["name"] == "chars":
+                        chars_locals.add(st["pat"]["lid"])
     for n, ps in walk_body(hb):
         if n.get("k") == "Match" and n.get("src") == "ForLoopDesugar":
             it = peel(n["scrut"]["args"][0])
-            if it.get("k") == "MethodCall" and it["name"] == "chars":
-                return hb, n
+            is_chars = it.get("k") == "MethodCall" and it["name"] == "chars"
+            is_chars = is_chars or (it.get("k") == "Path" and (it.get("res") or {}).get("lid") in chars_locals)
+            if is_chars:
+                lp = peel(n["arms"][0]["body"])
+                inner = peel(lp["body"].get("expr") or lp["body"]["stmts"][0]["e"])
+                some_arm = [a for a in inner["arms"] if (a["pat"].get("res") or {}).get("variant") == "Some"]
+                if some_arm:
+                    sp = some_arm[0]["pat"]
+                    return {"fn": hb, "loop": n, "pat": sp["pats"][0] if "pats" in sp else sp["fields"][0]["pat"], "body": some_arm[0]["body"], "iter_lid": None}
+        if n.get("k") == "Loop" and n.get("src") == "While" and not n["body"].get("stmts") and n["body"].get("expr"):
+            iff = peel(n["body"]["expr"])
+            let = peel(iff.get("cond") or {}) if iff.get("k") == "If" else {}
+            if let.get("k") == "Let" and (let["pat"].get("res") or {}).get("variant") == "Some" and len(let["pat"].get("pats", [])) == 1:
+                init = peel(let["init"])
+                rcv = peel(init["recv"]) if init.get("k") == "MethodCall" and init["name"] == "next" else {}
+                if rcv.get("k") == "Path" and (rcv.get("res") or {}).get("lid") in chars_locals:
+                    return {"fn": hb, "loop": n, "pat": let["pat"]["pats"][0], "body": iff["then"], "iter_lid": rcv["res"]["lid"]}
     if depth > 0:
         for n, ps in walk_body(hb):
             if n.get("k") in ("Call", "MethodCall") and n.get("callee"):
@@ -69,33 +94,55 @@ def _find_scanner(fx, hb, depth=2):
     return None
 
 
+SPECIALS = ["~", "\\", '"', "n", "t", "r"]
+
+
+def _holds(c, sym, x):
+    """truth of condition c when the symbolic character `sym` is x (OTHER: none of the special characters)"""
+    if c == ("lit", True) or c == ("lit", False):
+        return c[1]
+    if not isinstance(c, tuple) or c[:1] != ("app",):
+        return None
+    op, a = c[1], c[2]
+    if op in ("eq", "ne") and len(a) == 2:
+        l, r = a
+        if r == sym:
+            l, r = r, l
+        if l == sym and r[0] == "lit":
+            v = (r[1] == x) if x != OTHER else (False if r[1] in SPECIALS else None)
+            return v if (op == "eq" or v is None) else (not v)
+        return None
+    if op == "not" and len(a) == 1:
+        v = _holds(a[0], sym, x)
+        return None if v is None else (not v)
+    if op in ("or", "and"):
+        vs = [_holds(y, sym, x) for y in a]
+        if op == "or":
+            return True if any(v is True for v in vs) else (False if all(v is False for v in vs) else None)
+        return False if any(v is False for v in vs) else (True if all(v is True for v in vs) else None)
+    return None
+
+
 def _fsm_cells(ck, fx, hb):
     """Abstract interpretation of the scanning loop's body over the finite partition
-    {escaped, plain} × {~ \\ \" n t r OTHER}: for each cell the body is executed with the flag fixed and the character
-    fixed (OTHER: a symbolic character known to differ from the six special ones); the effects on the text buffer, the
-    argument list and the flag are compared with S5. Returns False when the loop has no (flag, character) shape."""
+    {escaped, plain} × {~ \\ \" n t r OTHER}: for each cell the body is executed with the character fixed (OTHER: a
+    symbolic character known to differ from the six special ones) and the scanner state fixed; the effects on the text
+    buffer, the argument list and the state are compared with S5. The state is either a boolean flag assigned in the body
+    or, in a `while let Some(c) = it.next()` scanner, the position itself: the backslash case takes the following
+    character with another `it.next()`. Returns False when the loop has neither shape."""
     from ..symex import Executor, Client, State, lit as L, app
     from ..symdbg import fmt_term
-    found = _find_scanner(fx, hb)
-    if not found:
+    sc = _find_scanner(fx, hb)
+    if not sc:
         return False
-    sb, loop = found
-    # pattern and body of the for loop
-    inner = peel((peel(loop["arms"][0]["body"])["body"].get("expr") or peel(loop["arms"][0]["body"])["body"]["stmts"][0]["e"]))
-    some_arm = [a for a in inner["arms"] if (a["pat"].get("res") or {}).get("variant") == "Some"]
-    if not some_arm:
-        return False
-    sp = some_arm[0]["pat"]
-    pat = sp["pats"][0] if "pats" in sp else sp["fields"][0]["pat"]
-    body = some_arm[0]["body"]
-    # the flag: a bool local assigned inside the body
+    sb, loop, pat, body, it_lid = sc["fn"], sc["loop"], sc["pat"], sc["body"], sc["iter_lid"]
     esc = None
     for n, ps in walk(body):
         if n.get("k") == "Assign":
             l = local_of(n["lhs"])
             if l and (fx.ty(n["lhs"]) or "") == "bool":
                 esc = l
-    if esc is None:
+    if esc is None and it_lid is None:
         return False
 
     class C(Client):
@@ -103,57 +150,125 @@ def _fsm_cells(ck, fx, hb):
         inline_depth = 4
 
         def no_inline(self, path):
-            return path.endswith("evaluate_as_string") or "evaluate_as_string" in path
+            return "evaluate_as_string" in path
 
-    specials = ["~", "\\", '"', "n", "t", "r"]
+    IT = ("iter", ("var", "@format.chars"), "fwd", ())
+
+    def run_cell(flag, ch):
+        ex = Executor(fx, C())
+        st = State()
+        for n, ps in walk(body):
+            if n.get("k") == "Path" and (n.get("res") or {}).get("k") == "Local" and n["res"]["lid"] not in st.env:
+                st.env[n["res"]["lid"]] = ("var", n["res"]["name"])
+        if esc is not None:
+            st.env[esc[0]] = L(flag)
+        if it_lid is not None:
+            st.env[it_lid] = IT
+        if ch == OTHER:
+            cv = ("sym", 10 ** 6, "char")
+            for c in SPECIALS:
+                st.learn(app("eq", cv, L(c)), False)
+        else:
+            cv = L(ch)
+        ex.match_pat(pat, cv, st)
+        return cv, ex.ev(body, st)
+
+    def actions(s_, cv, also_same=None):
+        """(text appended, arguments taken, lookahead results) on one path"""
+        writes, argn, looks = [], 0, []
+        for ef in s_.eff:
+            if ef["k"] != "call":
+                continue
+            cn = ef["args"][0][1].rsplit("::", 1)[-1]
+            recv = ef["args"][1] if len(ef["args"]) > 1 else None
+            if cn in ("push", "write_char") and len(ef["args"]) == 3 and recv is not None and recv[0] == "var":
+                a = ef["args"][2]
+                writes.append(a[1] if a[0] == "lit" else ("same" if a == cv else ("next" if also_same is not None and a == also_same(ef) else "?")))
+            elif cn in ("push_str", "write_str") and len(ef["args"]) == 3 and recv is not None and recv[0] == "var":
+                a = ef["args"][2]
+                rendered = any(x["k"] == "call" and "evaluate_as_string" in x["args"][0][1] and x.get("res") is not None and _mentions(a, x["res"]) for x in s_.eff)
+                writes.append("<argument>" if rendered else (a[1] if a[0] == "lit" else "?"))
+            elif cn in ("pop", "next") and recv is not None and recv[0] == "var" and "arg" in str(recv[1]).lower():
+                argn += 1
+            elif cn == "next" and recv == IT:
+                looks.append(ef.get("res"))
+        return writes, argn, looks
+
+    def absent(s_, r):
+        """the path on which the lookahead found no further character"""
+        for ef in s_.eff:
+            if ef["k"] == "assume_fail" and ef["args"][0] == r:
+                return True
+            if ef["k"] == "assume" and ef["args"][0] in (("app", "is_some", (r,)), ("app", "is_ok", (r,))) and ef["args"][1] == ("lit", False):
+                return True
+            if ef["k"] == "assume" and ef["args"][0] == ("app", "is_none", (r,)) and ef["args"][1] == ("lit", True):
+                return True
+        return False
+
+    def is_ok(o):
+        return o[0] in ("val", "cont") and not (o[0] == "val" and isinstance(o[1], tuple) and o[1][:1] == ("err",))
+
     n_cells = 0
-    for e in (True, False):
-        for ch in specials + [OTHER]:
-            n_cells += 1
-            key = "(%s, %s)" % ("escaped" if e else "plain", repr(ch) if ch != OTHER else "any other char")
-            ex = Executor(fx, C())
-            st = State()
-            for n, ps in walk(body):
-                if n.get("k") == "Path" and (n.get("res") or {}).get("k") == "Local" and n["res"]["lid"] not in st.env:
-                    st.env[n["res"]["lid"]] = ("var", n["res"]["name"])
-            st.env[esc[0]] = L(e)
-            if ch == OTHER:
-                cv = ("sym", 10 ** 6, "char")
-                for c in specials:
-                    st.learn(app("eq", cv, L(c)), False)
-            else:
-                cv = L(ch)
+    for flag in ((True, False) if esc is not None else (False,)):
+        for ch in SPECIALS + [OTHER]:
+            key = "(%s, %s)" % ("escaped" if flag else "plain", repr(ch) if ch != OTHER else "any other char")
             try:
-                ex.match_pat(pat, cv, st)
-                res = ex.ev(body, st)
+                cv, res = run_cell(flag, ch)
             except Exception as ex_:  # noqa
                 ck.ob("R15.fsm", key, False, loc(body), "cannot execute the loop body for this cell (unprovable): %s" % str(ex_)[:100])
+                n_cells += 1
                 continue
+            if esc is None and ch == "\\":
+                # the backslash case of a position-based scanner: the escaped cells are its paths, by the following character
+                for x in SPECIALS + [OTHER]:
+                    n_cells += 1
+                    k2 = "(escaped, %s)" % (repr(x) if x != OTHER else "any other char")
+                    succ, fails, looked = [], 0, True
+                    for s_, o in res:
+                        w, argn, looks = actions(s_, cv)
+                        if len(looks) != 1:
+                            looked = False
+                            continue
+                        r = looks[0]
+                        if absent(s_, r):
+                            continue        # the format ends after the backslash
+                        pay = ("payload", r)
+                        consistent = all(_holds(ef["args"][0], pay, x) in (None, ef["args"][1] == ("lit", True)) for ef in s_.eff if ef["k"] == "assume" and _mentions(ef["args"][0], pay))
+                        if not consistent:
+                            continue
+                        w2 = []
+                        for ef in s_.eff:
+                            if ef["k"] == "call" and ef["args"][0][1].rsplit("::", 1)[-1] in ("push", "write_char") and len(ef["args"]) == 3 and ef["args"][1][0] == "var":
+                                a = ef["args"][2]
+                                w2.append(a[1] if a[0] == "lit" else (x if (a == pay and x != OTHER) else "?"))
+                        if is_ok(o):
+                            succ.append((tuple(w2), argn))
+                        else:
+                            fails += 1
+                    if x == OTHER:
+                        ok = looked and not succ and fails > 0
+                        want = "always fails"
+                    else:
+                        ok = looked and bool(succ) and set(succ) == {((ESCAPES[x],), 0)}
+                        want = [[ESCAPES[x]], 0]
+                    ck.ob("R15.fsm", k2, ok, loc(body), "after a backslash, with this character next: successful outcomes (text appended, arguments taken) %s, failing paths %d; S5: %s" % (
+                        sorted(map(list, set(succ))), fails, want))
+                # the backslash itself prints nothing and takes no argument; a trailing backslash is dropped
+                n_cells += 1
+                tail = [(actions(s_, cv), o) for s_, o in res if any(absent(s_, r) for r in actions(s_, cv)[2])]
+                ok = bool(tail) and all(is_ok(o) and not a[0] and a[1] == 0 for a, o in tail)
+                ck.ob("R15.fsm", "(plain, '\\\\')", ok, loc(body), "a backslash prints nothing itself; at the very end of the format it is dropped: %s" % ok)
+                continue
+            n_cells += 1
             succ, fails = [], 0
             for s_, o in res:
-                if o[0] in ("val", "cont"):
-                    writes, argn = [], 0
-                    for ef in s_.eff:
-                        if ef["k"] != "call":
-                            continue
-                        cn = ef["args"][0][1].rsplit("::", 1)[-1]
-                        recv = ef["args"][1] if len(ef["args"]) > 1 else None
-                        if cn in ("push", "write_char") and len(ef["args"]) == 3 and recv is not None and recv[0] == "var":
-                            a = ef["args"][2]
-                            writes.append(a[1] if a[0] == "lit" else ("same" if a == cv else "?"))
-                        elif cn in ("push_str", "write_str") and len(ef["args"]) == 3 and recv is not None and recv[0] == "var":
-                            a = ef["args"][2]
-                            rendered = any(x["k"] == "call" and "evaluate_as_string" in x["args"][0][1] and x.get("res") is not None and _mentions(a, x["res"]) for x in s_.eff)
-                            writes.append("<argument>" if rendered else (a[1] if a[0] == "lit" else "?"))
-                        elif cn in ("pop", "next") and recv is not None and recv[0] == "var" and "arg" in str(recv[1]).lower():
-                            argn += 1
-                    succ.append((tuple(writes), argn, s_.env.get(esc[0])))
-                elif o[0] in ("ret", "panic") or (o[0] == "val" and isinstance(o[1], tuple) and o[1] and o[1][0] == "err"):
+                if is_ok(o):
+                    w, argn, looks = actions(s_, cv)
+                    succ.append((tuple(w), argn + 100 * len(looks), s_.env.get(esc[0]) if esc is not None else L(False)))
+                else:
                     fails += 1
-            if e:
-                want = None if ch == OTHER else {((ESCAPES[ch.replace("\\\\", "\\")] if ch != "\\" else "\\",), 0, L(False))}
-                if ch == "\\":
-                    want = {(("\\",), 0, L(False))}
+            if flag:
+                want = None if ch == OTHER else {((ESCAPES[ch],), 0, L(False))}
             elif ch == "\\":
                 want = {((), 0, L(True))}
             elif ch == "~":
@@ -161,12 +276,11 @@ def _fsm_cells(ck, fx, hb):
             else:
                 want = {((ch if ch != OTHER else "same",), 0, L(False))}
             got = set(succ)
-            norm = {(tuple("same" if (w == ch and not e) else w for w in ws) if ch != OTHER else ws, a, f) for ws, a, f in got}
             if want is None:
                 ok = not succ and fails > 0
             else:
-                want_n = {(tuple("same" if (w == ch and not e) else w for w in ws), a, f) for ws, a, f in want}
-                ok = bool(succ) and norm == want_n  # failing paths: the `?` on the buffer write / a missing argument
+                canon = lambda ws: tuple("same" if (w == ch and not flag and ch not in ("~",)) else w for w in ws)  # noqa
+                ok = bool(succ) and {(canon(ws), a, f) for ws, a, f in got} == {(canon(ws), a, f) for ws, a, f in want}
             ck.ob("R15.fsm", key, ok, loc(body), "successful outcomes (text appended, arguments taken, flag afterwards): %s, failing paths: %d; S5: %s" % (
                 sorted((list(ws), a, fmt_term(f) if isinstance(f, tuple) else f) for ws, a, f in got), fails,
                 "always fails" if want is None else sorted((list(ws), a, fmt_term(f)) for ws, a, f in want)))
@@ -184,7 +298,7 @@ def _fsm_cells(ck, fx, hb):
                   len(oks), len(skipping), "" if not skipping else " — such a print emits text that was never interpreted (placeholders, escapes, argument count)"))
     else:
         ck.ob("R15.fsm", "every successful print scans its format", False, loc(loop), "cannot enumerate the paths of eval_print (unprovable): %s" % err2)
-    ck.ob("R15.fsm", "scans format.chars() in order", True, loc(loop), "for-loop over the format's Unicode scalar values in %s" % sb["path"], nontrivial=False)
+    ck.ob("R15.fsm", "scans format.chars() in order", True, loc(loop), "loop over the format's Unicode scalar values in %s" % sb["path"], nontrivial=False)
     return True
 
 
@@ -383,6 +497,31 @@ def _render(ck, fx):
             ck.ob("R15.render", "cycle guard is path-scoped (entered objects are left again)", removes >= adds, loc(pb),
                   "%d insertion(s) into the guard collection, %d removal(s)%s" % (adds, removes, "" if removes >= adds else
                   " — a visited-set rejects acyclic values that reach the same object twice (shared substructure must print)"))
+    # ---- Array and Object: the string each renderer returns, world by world (c15_render)
+    from . import c15_render as CR
+    done = 0
+    for kind, role in (("array", "array.render"), ("object", "object.render")):
+        b = fx.body(A.get(role))
+        if not ck.anchor("R15.render", "%s rendering" % kind.capitalize(), b):
+            continue
+        ck.fn(b["path"])
+        try:
+            rows = CR.decide(fx, b, kind)
+        except Exception as e:  # noqa
+            rows = None
+            ck.note("R15.render: %s renderer could not be executed symbolically (%s: %s); falling back to the shape rules" % (kind, type(e).__name__, str(e)[:80]))
+        if rows is None:
+            continue
+        done += 1
+        for label, ok, why in rows:
+            ck.ob("R15.render", "%s|%s" % (kind.capitalize(), label), ok, loc(b), why)
+    if done < 2:
+        _render_shapes_fallback(ck, fx)
+
+
+def _render_shapes_fallback(ck, fx):
+    """the former reading of the renderers' *shape* (templates, separators, the sort call, the parent match): used only when
+    the renderers cannot be executed symbolically"""
     # ---- Array
     ab = fx.body(A.get("array.render"))
     if ck.anchor("R15.render", "Array rendering", ab):
@@ -456,6 +595,7 @@ def _render(ck, fx):
                 sel_ok = t == [("Some", True, "object(..={0}, {1})"), ("Some", False, "object(..={0})"), ("None", False, "object({0})")] and g_ok
         ck.ob("R15.render", "Object parent part iff parent is not null", par_ok, loc(ob), "match parent { Null => None, p => Some(render p) }: %s" % par_ok)
         ck.ob("R15.render", "Object template selection", sel_ok, loc(ob), "(parent, fields non-empty) → `object(..=p, f…)` / (parent) → `object(..=p)` / no parent → `object(f…)`: %s" % sel_ok)
+
 
 
 def _lexer(ck, fx):
